@@ -16,6 +16,11 @@ namespace cnl {
         template<class Result = void>
         constexpr auto unreachable(char const* /*message*/) noexcept -> Result
         {
+#if defined(JOHNMCFARLANE_CNL_VERIF)
+            if (!std::is_constant_evaluated() && verif::terminal_hook) {
+                verif::terminal_hook(1, "unreachable");
+            }
+#endif
 #if defined(_MSC_VER)
             __assume(false);
 #elif defined(__GNUC__)
